@@ -64,7 +64,7 @@ Count(st, o) ==
     [] st.kind = "simple"    -> o.n = st.k
     [] st.kind = "constant"  -> o.n = 1
     [] st.kind = "invariant" -> o.n \in {st.n, st.n + 1}       \* the invariant may share a class
-    [] st.kind = "mixture"   -> o.n >= st.n /\ o.n <= st.k * st.n
+    [] st.kind = "mixture"   -> o.n >= st.n /\ o.n <= st.k * (st.n + 1)   \* a component may be invariant-mixed
 
 BoundsMonotone(o)  == \A i \in 1..o.n : o.rb[i] <= o.rb[i + 1]          \* non-decreasing, inside the domain
 ValuesStrict(o)    == \A i \in 1..(o.n - 1) : o.rv[i] < o.rv[i + 1]
